@@ -21,7 +21,11 @@ import (
 	"github.com/NethermindEth/juno/db"
 	"github.com/NethermindEth/juno/db/memory"
 	"github.com/NethermindEth/juno/l1"
+	"github.com/NethermindEth/juno/l1/geth/contract"
 	"github.com/NethermindEth/juno/utils/log"
+
+	"github.com/ethereum/go-ethereum/core/types"
+	"github.com/ethereum/go-ethereum/event"
 
 	"jsim/sim"
 )
@@ -43,6 +47,7 @@ type mlog struct {
 	seq       int  // sequence number of the (last) delivery
 	removed   bool // a removal notice for it has been handed to the client
 	rmQueued  bool // a removal notice is queued and not yet handed over
+	inFlight  bool // orphaned while still waiting in the subscription queue; goes out, then its removal
 
 	// the same over all client instances of the run (a restarted client starts from nothing, the
 	// stored head survives in the database)
@@ -80,6 +85,7 @@ type req struct {
 	finAt    uint64        // model values when the call was made (for stale answers)
 	latestAt uint64
 	probe    bool // finalised: the catch-up's probe (its value does not drive a head update)
+	tickCall bool // finalised: first call of a setL1Head started by a poll tick
 	updates  chan<- *l1.StateUpdate
 }
 
@@ -87,7 +93,7 @@ type resp struct {
 	err  error
 	u64  uint64
 	logs []*l1.StateUpdate
-	sub  *subscription
+	sub  l1.Subscription
 	id   *big.Int
 }
 
@@ -97,6 +103,15 @@ type subscription struct {
 	errCh chan error
 	live  bool // scheduler side: events may be delivered through it
 	once  sync.Once
+	// notifications that were on their way when the subscription failed: they reach the sink while
+	// the client tears the subscription down (inside Unsubscribe), i.e. after it has picked up the
+	// error and before Unsubscribe returns
+	late []*l1.StateUpdate
+
+	// adapter mode: the client holds the production forwarder's subscription instead of this
+	// object; notifications and the failure enter below the adapter
+	gethCh  chan *contract.StarknetLogStateUpdate
+	gethErr chan error
 }
 
 func (s *subscription) Err() <-chan error { return s.errCh }
@@ -108,9 +123,29 @@ func (s *subscription) Unsubscribe() {
 		s.live = false
 		close(s.errCh) // as go-ethereum's event.Subscription does
 		if !s.w.closing {
-			s.w.logf("client: unsubscribe sub#%d", s.n)
+			n := s.pushLate()
+			if n > 0 {
+				s.w.logf("client: unsubscribe sub#%d (%d late notifications reach the sink)", s.n, n)
+			} else {
+				s.w.logf("client: unsubscribe sub#%d", s.n)
+			}
 		}
 	})
+}
+
+// pushLate puts the late notifications into the sink; called with w.mu held.
+func (s *subscription) pushLate() int {
+	n := 0
+	for _, su := range s.late {
+		select {
+		case s.w.updates <- su:
+			n++
+		default:
+			panic("l1world: sink full for late notifications")
+		}
+	}
+	s.late = nil
+	return n
 }
 
 type provider struct{ w *world }
@@ -142,6 +177,12 @@ func (p *provider) park(ctx context.Context, kind string, from, to uint64, timeo
 	}
 	if kind == "finalised" && w.lastKind == "latest" && w.lastOK {
 		r.probe = true
+	}
+	if kind == "finalised" && !r.probe && w.catchupDone && !(w.lastFail && w.lastKind == "finalised") {
+		// first call of a setL1Head started by a poll tick: the client has just taken a tick
+		// out of its ticker's one-element buffer
+		r.tickCall = true
+		w.tickTakenAt = r.t0
 	}
 	w.parked = r
 	w.lastFail = false
@@ -228,6 +269,9 @@ type config struct {
 	stale       bool // answer height calls with the value as of the time of the call
 	resubmit    bool // a reorged-out commit may re-appear with identical content on the new fork
 	restarts    bool // the node may be restarted: a new l1.Client on the same database
+	bursts      bool // several notifications (and possibly the subscription error) pile up while the client is busy
+	keepQueued  bool // a reorg leaves queued logs of the old fork in the queue, followed by their removals
+	adapter     bool // notifications and filter results pass through the production go-ethereum adapter
 	maxBlocks   int
 }
 
@@ -264,15 +308,20 @@ type world struct {
 	seq      int
 
 	// client state as seen through the seam
-	nreq       int
-	parked     *req
-	lastKind   string
-	lastOK     bool
-	lastFail   bool
-	lastFailAt time.Time
-	timeouts   []string // kinds of calls abandoned since the last quiescence
-	tickStart  time.Time
-	ticking    bool
+	nreq        int
+	parked      *req
+	lastKind    string
+	lastOK      bool
+	lastFail    bool
+	lastFailAt  time.Time
+	timeouts    []string // kinds of calls abandoned since the last quiescence
+	tickStart   time.Time
+	ticking     bool
+	tickTakenAt time.Time // when the client last took a tick out of its ticker
+	bursts      int
+
+	lastBooked        *mlog
+	lastBookedRemoved bool
 
 	// catch-up bookkeeping
 	chunksOK       int
@@ -398,8 +447,13 @@ func (w *world) reorg() {
 	// them and then their removal; dropping both is the same stream with the pair elided)
 	kept := w.queue[:0]
 	for _, e := range w.queue {
-		if !e.removed && e.lg.orphaned {
-			continue
+		if !e.removed && e.lg.orphaned && !e.lg.inFlight {
+			if w.cfg.keepQueued {
+				// as geth: the log still goes out, its removal follows (queued below)
+				e.lg.inFlight = true
+			} else {
+				continue
+			}
 		}
 		kept = append(kept, e)
 	}
@@ -415,7 +469,7 @@ func (w *world) reorg() {
 	nrm := 0
 	for _, lg := range order {
 		switch {
-		case lg.delivered && !lg.removed && !lg.rmQueued:
+		case (lg.delivered || lg.inFlight) && !lg.removed && !lg.rmQueued:
 			lg.rmQueued = true
 			w.queue = append(w.queue, qev{lg: lg, removed: true})
 			nrm++
@@ -708,7 +762,7 @@ func (w *world) answerOK(r *req) {
 			for _, lg := range w.blocks[num].logs {
 				w.seq++
 				lg.delivered, lg.everDelivered, lg.seq = true, true, w.seq
-				x.logs = append(x.logs, &l1.StateUpdate{L2BlockNumber: lg.l2, L2BlockHash: lg.hash, StateRoot: lg.root, L1RefHeight: lg.l1})
+				x.logs = append(x.logs, w.stateUpdate(lg, false))
 				n++
 			}
 		}
@@ -721,6 +775,21 @@ func (w *world) answerOK(r *req) {
 		w.sub = &subscription{w: w, n: w.nsubs, errCh: make(chan error, 1), live: true}
 		w.updates = r.updates
 		x.sub = w.sub
+		if w.cfg.adapter {
+			s := w.sub
+			s.gethCh = make(chan *contract.StarknetLogStateUpdate, 64) // watchForwarderBuffer
+			s.gethErr = make(chan error, 1)
+			gethErr := s.gethErr
+			gethSub := event.NewSubscription(func(quit <-chan struct{}) error {
+				select {
+				case err := <-gethErr:
+					return err
+				case <-quit:
+					return nil
+				}
+			})
+			x.sub = l1.JsimForwardStateUpdates(gethSub, s.gethCh, r.updates)
+		}
 		w.catchupDone = true
 		if !w.ticking {
 			w.ticking, w.tickStart = true, time.Now()
@@ -757,12 +826,55 @@ func (w *world) answerErr(r *req) {
 	r.ch <- resp{err: errScripted}
 }
 
-func (w *world) deliver() {
+func (w *world) deliver() { w.handOver("delivers") }
+
+// handOver pushes the first queued notification into the client's sink and books it for the
+// reference set D; the same bookkeeping whether the client reads it at once (deliver) or later
+// (burst, late).
+func (w *world) handOver(verb string) {
+	su := w.book(verb)
+	if w.cfg.adapter {
+		select {
+		case w.sub.gethCh <- gethEvent(w.lastBooked, w.lastBookedRemoved):
+		default:
+			w.c.Broken("geth event channel full")
+		}
+		return
+	}
+	select {
+	case w.updates <- su:
+	default:
+		w.c.Broken("update channel full")
+	}
+}
+
+// gethEvent is the commit as go-ethereum's abigen binding hands it to the adapter.
+func gethEvent(lg *mlog, removed bool) *contract.StarknetLogStateUpdate {
+	return &contract.StarknetLogStateUpdate{
+		GlobalRoot:  lg.root.BigInt(new(big.Int)),
+		BlockNumber: new(big.Int).SetUint64(lg.l2),
+		BlockHash:   lg.hash.BigInt(new(big.Int)),
+		Raw:         types.Log{BlockNumber: lg.l1, Index: uint(lg.idx), Removed: removed},
+	}
+}
+
+// stateUpdate is a filter-query result for lg: built directly, or in adapter mode by the
+// production conversion.
+func (w *world) stateUpdate(lg *mlog, removed bool) *l1.StateUpdate {
+	if w.cfg.adapter {
+		return l1.JsimStateUpdateFromGeth(gethEvent(lg, removed))
+	}
+	return &l1.StateUpdate{L2BlockNumber: lg.l2, L2BlockHash: lg.hash, StateRoot: lg.root, L1RefHeight: lg.l1, Removed: removed}
+}
+
+// book takes the first queued notification off the queue and books it for D.
+func (w *world) book(verb string) *l1.StateUpdate {
 	c := w.c
 	e := w.queue[0]
 	w.queue = w.queue[1:]
 	lg := e.lg
 	su := &l1.StateUpdate{L2BlockNumber: lg.l2, L2BlockHash: lg.hash, StateRoot: lg.root, L1RefHeight: lg.l1, Removed: e.removed}
+	w.lastBooked, w.lastBookedRemoved = lg, e.removed
 	if e.removed {
 		if !e.spurious {
 			// is it the commit the client would pick next?
@@ -775,21 +887,133 @@ func (w *world) deliver() {
 			c.Probe("removal_of_undelivered_log")
 		}
 		c.Fault("removal_delivered")
-		w.logf("env: sub#%d delivers REMOVED %v", w.sub.n, lg)
+		if w.cfg.adapter {
+			c.Probe("adapter_removal_through_forwarder")
+		}
+		w.logf("env: sub#%d %s REMOVED %v", w.sub.n, verb, lg)
 	} else {
 		w.seq++
 		lg.delivered, lg.everDelivered, lg.seq = true, true, w.seq
-		w.logf("env: sub#%d delivers %v", w.sub.n, lg)
+		w.logf("env: sub#%d %s %v", w.sub.n, verb, lg)
 	}
-	select {
-	case w.updates <- su:
-	default:
-		c.Broken("update channel full while the client is idle")
+	return su
+}
+
+// tickBuffered tells whether the client's ticker holds an unread tick: a tick of the poll grid has
+// fired since the client last took one.
+func (w *world) tickBuffered() bool {
+	if !w.ticking {
+		return false
+	}
+	return time.Since(w.tickStart)/w.cfg.poll > w.tickTakenAt.Sub(w.tickStart)/w.cfg.poll
+}
+
+// burst: while the client is inside the FinalisedHeight call of a poll tick (so not in its main
+// select), several queued notifications reach its sink; then the call is answered. Back in its
+// select the client finds several ready cases and Go picks among them at random; a correct client
+// ends in the same state whatever the order (nothing else is ready: no tick is buffered and no time
+// passes), so the whole thing is one scheduler step up to the quiescent point where the sink is
+// drained again. Nothing is judged and nothing order-dependent is logged in between.
+//
+// With withErr the subscription fails as well while k notifications are under way. How many of
+// them the client reads before it services the error is decided by the tape (j of k), not by Go's
+// select: j are pushed with the burst, the error becomes ready once the client has drained them,
+// and the other k-j reach the sink while the client tears the subscription down (see
+// subscription.late). For a client that keeps its sink across the resubscription this is exactly
+// the outcome "select took the error after j notifications" of the all-at-once variant, and it is
+// reproducible also for a client that does not. The all-at-once variant (error ready together with
+// all k) is kept behind the knob burst_err_random.
+func (w *world) burst(withErr bool) {
+	c := w.c
+	r := w.parked
+	k := 2 + c.T.Draw("burst.k", len(w.queue)-1)
+	if room := cap(w.updates) - len(w.updates); k > room {
+		k = room
+	}
+	random := withErr && c.Knobs["burst_err_random"] == "1"
+	j := k
+	if withErr && !random {
+		j = c.T.Draw("burst.read", k+1)
+	}
+	w.bursts++
+	c.Fault("burst_while_busy")
+	w.logf("env: burst of %d notifications while the client is in call#%d (sub error: %v, read before it: %d)", k, r.id, withErr, j)
+	hadRemoval := false
+	for i := 0; i < k; i++ {
+		hadRemoval = hadRemoval || w.queue[i].removed
+	}
+	if hadRemoval {
+		c.Probe("burst_contained_removal")
+	}
+	for i := 0; i < j; i++ {
+		w.handOver("pushes")
+	}
+	if random {
+		w.killSub(0)
+		c.Probe("burst_err_random_order")
+	}
+	w.answerOK(r)
+	// this setL1Head ran before the client read any of the burst: no equality here; the next
+	// completed poll is judged against D including the burst
+	w.expectEq = false
+	w.wait()
+	if !withErr {
+		c.Probe("burst_no_error")
+		return
+	}
+	c.Probe("burst_then_sub_error")
+	if !random {
+		if w.phase() != phIdle {
+			// only a client that does not return to its select after the poll gets here
+			return
+		}
+		w.killSub(k - j)
+		w.wait()
+	}
+	w.grantResubscription()
+}
+
+// wait releases w.mu until the next quiescent point.
+func (w *world) wait() {
+	w.mu.Unlock()
+	synctest.Wait()
+	w.mu.Lock()
+}
+
+// grantResubscription: after a subscription failure that left notifications in the sink, the
+// WatchStateUpdate call is answered at once, so that nothing else (a tick) can become ready
+// together with them.
+func (w *world) grantResubscription() {
+	if s := w.sub; s != nil && len(s.late) > 0 {
+		// the client did not tear the failed subscription down: the notifications arrive anyway
+		s.pushLate()
+	}
+	if w.parked != nil && w.parked.kind == "watch" {
+		w.answerOK(w.parked)
+		w.wait()
+		w.c.Probe("burst_resubscribed")
 	}
 }
 
-func (w *world) killSub() {
+// killLate: the subscription fails while the client is idle and `late` queued notifications are
+// under way (see subscription.late).
+func (w *world) killLate() {
+	late := 1 + w.c.T.Draw("late.k", len(w.queue))
+	if room := cap(w.updates) - len(w.updates); late > room {
+		late = room
+	}
+	w.c.Probe("sub_error_with_late_notifications")
+	w.c.Fault("late_notifications")
+	w.killSub(late)
+	w.wait()
+	w.grantResubscription()
+}
+
+func (w *world) killSub(late int) {
 	s := w.sub
+	for i := 0; i < late; i++ {
+		s.late = append(s.late, w.book("hands over late"))
+	}
 	s.live = false
 	// logs in flight are lost with the subscription; removal notices the node owes for logs it
 	// had delivered are kept and handed over first thing on the next subscription (the property
@@ -797,9 +1021,12 @@ func (w *world) killSub() {
 	kept := w.queue[:0]
 	lost := 0
 	for _, e := range w.queue {
-		if e.removed && !e.spurious {
+		if e.removed && !e.spurious && e.lg.delivered {
 			kept = append(kept, e)
 		} else {
+			if e.removed && !e.spurious {
+				e.lg.rmQueued = false // its log is dropped undelivered: nothing to take back
+			}
 			lost++
 		}
 	}
@@ -809,8 +1036,12 @@ func (w *world) killSub() {
 	}
 	w.c.Fault("sub_error")
 	w.logf("env: sub#%d dies (%d queued notifications lost, %d removals carried over)", s.n, lost, len(kept))
+	errCh := s.errCh
+	if w.cfg.adapter {
+		errCh = s.gethErr
+	}
 	select {
-	case s.errCh <- errSubDied:
+	case errCh <- errSubDied:
 	default:
 		w.c.Broken("subscription error channel full")
 	}
@@ -889,6 +1120,11 @@ func (w *world) step() {
 			d := r.timeout - time.Since(r.t0) + time.Millisecond
 			add("timeout", 1, w.sleepLog("let call#"+fmt.Sprint(r.id)+" time out", d))
 		}
+		if w.cfg.bursts && r.kind == "finalised" && !r.probe && w.catchupDone && w.sub != nil && w.sub.live &&
+			len(w.queue) >= 2 && len(w.updates) == 0 && !w.tickBuffered() {
+			add("burst", 6, func() { w.burst(false) })
+			add("burst_err", 6, func() { w.burst(true) })
+		}
 	case phRetry:
 		d := w.cfg.resub - time.Since(w.lastFailAt)
 		if d < 0 {
@@ -903,7 +1139,10 @@ func (w *world) step() {
 			add("tick", 8, w.sleepLog("to the next finalised-height poll", w.nextTickIn()))
 		}
 		if w.cfg.subKill {
-			add("kill", 1, w.killSub)
+			add("kill", 1, func() { w.killSub(0) })
+			if w.cfg.bursts && len(w.queue) > 0 {
+				add("kill_late", 2, w.killLate)
+			}
 		}
 	}
 	if w.cfg.jumps {
@@ -981,8 +1220,14 @@ func drawConfig(c *sim.Ctx) config {
 		cfg.rmReverse = t.Chance("f.rmrev", 1, 2)
 		cfg.resubmit = t.Chance("f.resubmit", 1, 2)
 		cfg.restarts = t.Chance("f.restarts", 1, 3)
+		cfg.bursts = t.Chance("f.bursts", 1, 2)
+		cfg.keepQueued = t.Chance("f.keepq", 1, 2)
 	}
 	cfg.stale = t.Chance("stale.on", 1, 2)
+	cfg.adapter = t.Chance("adapter", 1, 8)
+	if cfg.adapter {
+		cfg.bursts = false // bursts and late notifications are pushed into the sink directly
+	}
 	return cfg
 }
 
@@ -1031,7 +1276,7 @@ func (w *world) startClient() {
 	w.inst++
 	w.closing = false
 	for _, lg := range w.all {
-		lg.delivered, lg.removed, lg.rmQueued, lg.seq = false, false, false, 0
+		lg.delivered, lg.removed, lg.rmQueued, lg.inFlight, lg.seq = false, false, false, false, 0
 	}
 	w.queue, w.sub, w.updates, w.instSubs = nil, nil, nil, 0
 	w.parked, w.lastKind, w.lastOK, w.lastFail = nil, "", false, false
@@ -1079,8 +1324,8 @@ func C17(c *sim.Ctx) {
 		"faulty": cfg.faulty, "chunk": cfg.chunk, "poll_s": cfg.poll.Seconds(), "resubscribe_s": cfg.resub.Seconds(),
 		"steps": cfg.steps, "init_blocks": w.latest(), "init_finalised": w.fin,
 	}
-	c.Logf("cfg: faulty=%v chunk=%d poll=%s resub=%s steps=%d kill=%v watchFail=%v finFail=%v latestFail=%v filterFail=%v chainIDFail=%v timeouts=%v reorgs=%v jumps=%v spurious=%v rmReverse=%v stale=%v resubmit=%v restarts=%v",
-		cfg.faulty, cfg.chunk, cfg.poll, cfg.resub, cfg.steps, cfg.subKill, cfg.watchFail, cfg.finFail, cfg.latestFail, cfg.filterFail, cfg.chainIDFail, cfg.timeouts, cfg.reorgs, cfg.jumps, cfg.spurious, cfg.rmReverse, cfg.stale, cfg.resubmit, cfg.restarts)
+	c.Logf("cfg: faulty=%v chunk=%d poll=%s resub=%s steps=%d kill=%v watchFail=%v finFail=%v latestFail=%v filterFail=%v chainIDFail=%v timeouts=%v reorgs=%v jumps=%v spurious=%v rmReverse=%v stale=%v resubmit=%v restarts=%v bursts=%v keepQueued=%v adapter=%v",
+		cfg.faulty, cfg.chunk, cfg.poll, cfg.resub, cfg.steps, cfg.subKill, cfg.watchFail, cfg.finFail, cfg.latestFail, cfg.filterFail, cfg.chainIDFail, cfg.timeouts, cfg.reorgs, cfg.jumps, cfg.spurious, cfg.rmReverse, cfg.stale, cfg.resubmit, cfg.restarts, cfg.bursts, cfg.keepQueued, cfg.adapter)
 	nl := 0
 	for _, b := range w.blocks {
 		nl += len(b.logs)
@@ -1151,6 +1396,9 @@ func C17(c *sim.Ctx) {
 	}
 	if w.headsSet > 0 {
 		c.Probe("head_stored")
+		if w.cfg.adapter {
+			c.Probe("adapter_head_stored")
+		}
 	}
 	if w.eqChecks >= 2 {
 		c.Probe("several_completed_updates")
